@@ -222,7 +222,11 @@ func init() {
 			arr := sel(h, "(s_arr "+b.T+")")
 			for i := 0; i < n; i++ {
 				sh := pow2(uint(8 * (n - 1 - i)))
-				arr = sto(arr, fmt.Sprintf("(+ (s_off %s) %d)", b.T, i), fmt.Sprintf("(mod (div %s %s) 256)", v.T, sh))
+				bt := fmt.Sprintf("(mod (div %s %s) 256)", v.T, sh)
+				if n == 8 {
+					bt = app(e.byte64Fn(n-1-i), v.T)
+				}
+				arr = sto(arr, fmt.Sprintf("(+ (s_off %s) %d)", b.T, i), bt)
 			}
 			e.hset(st, m, sto(h, "(s_arr "+b.T+")", arr))
 			return Val{T: "0"}
